@@ -92,6 +92,21 @@ class Ctx:
         with Lock("build"):
             os.makedirs(BUILD, exist_ok=True)
             sdir = os.path.join(HARNESS, "cmd", "srcgen")
+            if ALT and not os.path.exists(os.path.join(COQ, "Generated", ".baseline")):
+                # isolated mode: the Makefile's dependency scan needs EVERY generated file of _CoqProject to exist. Run
+                # each unit's generator against the alternative checkout once (falls back to the main tree's copy).
+                gdir = os.path.join(COQ, "Generated")
+                os.makedirs(gdir, exist_ok=True)
+                for fn in os.listdir(os.path.join(VERIF, "coq", "Generated")):
+                    if fn.endswith(".v"):
+                        shutil.copyfile(os.path.join(VERIF, "coq", "Generated", fn), os.path.join(gdir, fn))
+                for gf in sorted(os.listdir(sdir)):
+                    if gf.startswith("gen_") and gf.endswith(".go"):
+                        exe1 = os.path.join(BUILD, "srcgen-all-" + gf[4:-3])
+                        rc1, _, _, _ = run(["go", "build"] + MODFLAGS + ["-o", exe1, "main.go", gf], cwd=sdir, env=GOENV, timeout=600)
+                        if rc1 == 0:
+                            run([exe1, "-repo", REPO, "-out", gdir, "-summary", os.path.join(self.scratch, "srcgen-all.json")], timeout=120)
+                open(os.path.join(gdir, ".baseline"), "w").write("1")
             if gen_names:
                 files = ["main.go"] + ["gen_%s.go" % re.sub(r"_gen$", "", g).lower() for g in gen_names]
                 files = [f for f in files if os.path.exists(os.path.join(sdir, f))]
@@ -321,6 +336,9 @@ class Ctx:
         if st["proofs_ok"]:
             for pf in st["props"]:
                 assum += [l.strip() for l in self.assumptions(pf).splitlines() if l.strip()]
+        chk = None
+        if st["proofs_ok"] and self.tier == "thorough":
+            chk = self.coqchk(st["props"])
         fp = self.fingerprints_changed(fp_prefixes)
         if fp:
             self.notes.append("fingerprints of hand-modelled functions changed since baseline (not a violation; budget escalated): %s" % fp)
@@ -329,7 +347,22 @@ class Ctx:
                 "trusted_base": ["Coq 8.16.1 kernel + vm_compute (no native_compute)",
                                  "Print Assumptions: " + (" | ".join(sorted(set(assum)))[:800] or "n/a (proofs not built)"),
                                  "extraction: ExtrOcamlBasic only; generic OCaml line driver /verif/ocaml/main.ml"] + list(extra_trusted),
-                "theorems": st["theorems"], "srcgen_broken": st["broken"], "fingerprints_changed": fp}
+                "theorems": st["theorems"], "srcgen_broken": st["broken"], "fingerprints_changed": fp,
+                "coqchk": chk if chk is not None else "thorough tier only"}
+
+    def coqchk(self, props, timeout=3000):
+        """independent re-check of the compiled property files and everything they depend on (thorough tier);
+        returns the checker's context summary (axioms, type-in-type, unsafe fixpoints, assumed positivity)"""
+        mods = ["Relic." + p[:-2].replace("/", ".") for p in props]
+        with Lock("build"):
+            rc, out, err, dt = run(["coqchk", "-silent", "-o", "-Q", COQ, "Relic"] + mods, cwd=COQ, timeout=timeout)
+        txt = out + err
+        summ = txt[txt.find("CONTEXT SUMMARY"):] if "CONTEXT SUMMARY" in txt else txt[-1500:]
+        summ = re.sub(r"\s+", " ", summ)[:1500]
+        res = {"modules": mods, "exit": rc, "wall_s": round(dt, 1), "summary": summ}
+        if rc != 0:
+            self.violation(self.pid + ":proof:coqchk", "coqchk rejects the compiled development: " + txt[-400:], {"output": txt[-3000:]}, False)
+        return res
 
     # ------------------------------------------------------------ verdicts
     def violation(self, key, detail, replay_obj, found_input=True):
